@@ -210,6 +210,7 @@ func TestSim(t *testing.T) {
 			break
 		}
 		rng := rand.New(rand.NewSource(*fSeed*1000003 + int64(*fProc)*7919 + int64(run)*104729))
+		genRun = run
 		d := Generate(rng, prop, *fTier, gmp)
 		d.Seed, d.Run = *fSeed*1000+int64(*fProc), run
 		if beginF != nil {
